@@ -769,12 +769,13 @@ def consumer_traces(pm: ProtocolModel, while_iters: int = 2) -> list[Trace]:
     qop = prog.cls("state", "QueuedOperation")
     ce = prog.cls("threading", "CompletionEvent")
 
-    def new_item(it, label, sync=True):
+    def new_item(it, label, sync=True, empty=False):
         o = Obj(qop, label=label)
         ev: V = NONE
         if sync:
             ev = Obj(ce, label=f"{label}.event")
-        o.fields.update(operation_update=Sym(f"{label}.update", TypeRef(classes=(pm.update_cls.fq,))), completion_event=ev)
+        upd: V = NONE if empty else Sym(f"{label}.update", TypeRef(classes=(pm.update_cls.fq,)))
+        o.fields.update(operation_update=upd, completion_event=ev)
         return o
 
     def h_collect(it, f, sv, a, k, n):
@@ -783,7 +784,9 @@ def consumer_traces(pm: ProtocolModel, while_iters: int = 2) -> list[Trace]:
         if c == 1:
             it.emit("COLLECT", n, n=i, items=[])
             return SeqVal("list", [])
-        items = [new_item(it, f"b{i}.sync"), new_item(it, f"b{i}.async", sync=False)]
+        # an empty (token-refresh) checkpoint, a fire-and-forget update and a synchronous update, in this order:
+        # the list of updates sent is shorter than the batch, so index-aligned bookkeeping shows up
+        items = [new_item(it, f"b{i}.empty", empty=True), new_item(it, f"b{i}.async", sync=False), new_item(it, f"b{i}.sync")]
         it.emit("COLLECT", n, n=i, items=[x.key() for x in items], items_v=items)
         return SeqVal("list", items)
 
@@ -834,3 +837,66 @@ def consumer_traces(pm: ProtocolModel, while_iters: int = 2) -> list[Trace]:
             return Trace(("consumer", ""), it.events, "raise", r.exc, r.origin, r.site, pc=it.pc)
 
     return enumerate_paths(run, max_paths=400000)
+
+
+# ---------------------------------------------------------------------------
+# thread root: the branch done-callback
+# ---------------------------------------------------------------------------
+def done_callback_traces(pm: ProtocolModel):
+    """ConcurrentExecutor._on_task_complete with future.result() enumerated over everything a branch can end with."""
+    prog = pm.prog
+    cex = prog.cls("concurrency.executor", "ConcurrentExecutor")
+    fn = cex.methods.get("_on_task_complete")
+    if fn is None:
+        raise AnalysisError("ConcurrentExecutor._on_task_complete not found")
+    outcomes = ["return", "builtins.Exception*", TIMED_SUSPEND_FQ, SUSPEND_FQ, ORPHAN_FQ, BTE_FQ]
+    counters = prog.cls("concurrency.models", "ExecutionCounters")
+
+    def h_result(it, recv, args, kwargs, node):
+        if not (isinstance(recv, Sym) and recv.k == "future"):
+            return NotImplemented
+        c = it.decide("future.result() outcome", len(outcomes), [short(o) for o in outcomes])
+        it.emit("RESULT", node, outcome=short(outcomes[c]))
+        if c == 0:
+            return Sym("branch_result")
+        raise _Raise(it.make_exc(outcomes[c], "branch"), it.site(node))
+
+    def h_cancelled(it, recv, args, kwargs, node):
+        if not (isinstance(recv, Sym) and recv.k == "future"):
+            return NotImplemented
+        r = it.decide("future.cancelled()", 2, [False, True]) == 1
+        return Const(r)
+
+    def h_set(it, recv, args, kwargs, node):
+        if "_completion_event" in recv.key():
+            it.emit("COMPLETION_SET", node)
+            return NONE
+        return NotImplemented
+
+    def h_should_complete(it, f, sv, a, k, n):
+        return Const(it.decide("counters.should_complete()", 2, [True, False]) == 0)
+
+    def h_should_suspend(it, f, sv, a, k, n):
+        r = it.decide("should_execution_suspend()", 2, [True, False]) == 0
+        res = Obj(prog.cls("concurrency.models", "SuspendResult"))
+        res.fields.update(should_suspend=Const(r), exception=Sym("suspend_exc"))
+        return res
+
+    hooks = {counters.methods["should_complete"].fq: h_should_complete,
+             cex.methods["should_execution_suspend"].fq: h_should_suspend}
+
+    def self_factory(it, state):
+        o = Obj(cex, label="cexec")
+        o.fields["counters"] = Sym("cexec.counters", TypeRef(classes=(counters.fq,)))
+        o.fields["_completion_event"] = Sym("cexec._completion_event", TypeRef(prim="ext:threading.Event"))
+        return o
+
+    def kw(it, state):
+        ews = prog.cls("concurrency.models", "ExecutableWithState")
+        return {"exe_state": Sym("exe_state", TypeRef(classes=(ews.fq,))), "future": Sym("future", TypeRef(prim="ext:Future")),
+                "scheduler": Sym("scheduler", TypeRef(classes=(prog.cls("concurrency.executor", "TimerScheduler").fq,)))}
+
+    return fn, pm.run_function(fn, self_factory, kw, cell=("_on_task_complete", ""), extra_hooks=hooks,
+                               ext_method_hooks={"result": h_result, "cancelled": h_cancelled, "set": h_set})
+
+
